@@ -6,6 +6,7 @@ import json
 import os
 import sys
 import threading
+import types
 import time
 import warnings
 
@@ -726,6 +727,28 @@ def mode_stress(data):
 
 # ------------------------------------------------------------------ free-running traces (pattern T)
 def mode_trace(data):
+    """free-running traces for three kinds of racing frame: a plain function's (owned by the thread), a generator's and a
+    coroutine's (owned by their objects; they are suspended -- stack top saved -- and resumed over and over while being
+    inspected)"""
+    total = {"traces": [], "calls": 0, "with_retry": 0, "giveup": 0, "raised": 0, "unknown_top": 0, "bad": [], "by_shape": {}}
+    shapes = ("func", "gen", "coro")
+    for shape in shapes:
+        part = dict(data, seconds=data.get("seconds", 3) / len(shapes), max_traces=data.get("max_traces", 3000) // len(shapes))
+        o = trace_shape(part, shape)
+        for k in ("calls", "with_retry", "giveup", "raised", "unknown_top"):
+            total[k] += o[k]
+        total["traces"] += o["traces"]
+        total["bad"] += o["bad"]
+        total["by_shape"][shape] = {"calls": o["calls"], "with_retry": o["with_retry"], "traces": len(o["traces"])}
+    return total
+
+
+@types.coroutine
+def _trace_trap():
+    yield 1
+
+
+def trace_shape(data, shape):
     """records free-running inspect_frame calls on the frame of a thread that never stops, one trace per call, for
     validation against FrameSnapshotTrace.tla.  The sink reads the target's f_lasti at every probe."""
     import dis
@@ -752,7 +775,47 @@ def mode_trace(data):
     def helper(n):
         with CM(n):
             return 1
-    t = threading.Thread(target=spin, daemon=True)
+
+    def spin_gen():
+        n = 0
+        while not stop.is_set():
+            with CM(n):
+                n += helper(n)
+                lock.acquire()
+                lock.release()
+                yield n                 # suspended inside the with block (stack top saved), resumed by the loop below
+            n += helper(n)
+            lock.acquire()
+            lock.release()
+
+    async def spin_coro():
+        n = 0
+        while not stop.is_set():
+            with CM(n):
+                n += helper(n)
+                lock.acquire()
+                lock.release()
+                await _trace_trap()
+            n += helper(n)
+            lock.acquire()
+            lock.release()
+
+    def drive(obj):
+        try:
+            while True:
+                obj.send(None)
+        except StopIteration:
+            pass
+    if shape == "func":
+        t = threading.Thread(target=spin, daemon=True)
+    elif shape == "gen":
+        g = spin_gen()
+        box["frame"] = g.gi_frame
+        t = threading.Thread(target=drive, args=(g,), daemon=True)
+    else:
+        g = spin_coro()
+        box["frame"] = g.cr_frame
+        t = threading.Thread(target=drive, args=(g,), daemon=True)
     t.start()
     while "frame" not in box:
         time.sleep(0.001)
